@@ -48,6 +48,23 @@ def gen_cases(rng, tier, scale):
         D = jtok(data)
         ops += [f'r 0 {x("main")} {D} -1', f'r 2 {x("main")} {D} -1', f'r 0 {x("ctl")} {jtok({"c": [1, 2]})} -1', f'rt 4 {x(t)} {D} -1']
         cases.append({'line': f'r{k} ' + ' ; '.join(ops), 'kind': 'render', 'tpl': t, 'npre': len(parts) + 2, 'tags': ['render']})
+    # indented standalone partial calls whose chunks (raw text, values) begin/end with multi-byte characters,
+    # line breaks, or are empty: the byte-slicing paths of the indenting writer
+    UNI = ['Zoë', '10 €', '€', 'é\nü', '日本\n', '\n', '', '\U0001F600', 'a\r\nß', 'x']
+    m = (80 if tier == 'quick' else 1500) * scale
+    for k in range(m):
+        vals = {f's{i}': rng.choice(UNI) for i in range(3)}
+        vals['l'] = [rng.choice(UNI) for _ in range(rng.randint(0, 3))]
+        pu = ''.join(rng.choice(['{{s0}}', '{{{s1}}}', 'é', 'w€', '\n', '{{s2}}\n', '{{#each l}}{{this}}{{/each}}', '日', ' ', '{{#if s0}}ü{{/if}}'])
+                     for _ in range(rng.randint(1, 6)))
+        W = rng.choice([' ', '  ', '\t', ' \t '])
+        t = rng.choice(['', 'A\n', 'é\n']) + W + '{{> pu}}' + rng.choice(['\n', '\nZ', ''])
+        pre = ['pi 1'] if rng.random() < 0.2 else []
+        parts = {'pu': pu, 'p2': 'x'}
+        ops = pre + [f'regs {x(n_)} {x(s_)}' for n_, s_ in parts.items()] + [f'regs {x("ctl")} {x(control)}', f'regs {x("main")} {x(t)}']
+        D = jtok(vals)
+        ops += [f'r 0 {x("main")} {D} -1', f'r 2 {x("main")} {D} -1', f'r 0 {x("ctl")} {jtok({"c": [1, 2]})} -1', f'rt 4 {x(t)} {D} -1']
+        cases.append({'line': f'u{k} ' + ' ; '.join(ops), 'kind': 'render', 'tpl': t, 'npre': len(parts) + 2, 'tags': ['indent-unicode']})
     return cases
 
 def key(tok):
@@ -64,7 +81,7 @@ def oracle(c, io, mo):
         return f'rendering makes the process {io}'
     toks = io.split(' ')
     if toks[c['npre'] - 1] == 'PANIC':
-        return None       # the template does not even compile (a compile-time panic is property C04's finding F1)
+        return None       # the template does not even compile (a compile-time panic is property C04's business)
     if 'PANIC' in toks:
         return 'render (or compile) panicked'
     obs = toks[c['npre']:]
